@@ -18,7 +18,8 @@ type Script struct {
 	Net    *Net
 	V      *Node
 	Adv    *Adversary
-	Others []int // harness-controlled validator indices
+	Others []int  // harness-controlled validator indices
+	Peer   string // peer id the deliveries come from ("harness" if empty)
 	A      *Alarms
 	Log    []string
 }
@@ -58,7 +59,11 @@ func (s *Script) RS() *consensusRS { return s.V.CS.GetRoundState() }
 func (s *Script) Send(m consensus.Message) {
 	s.Net.note("s %s", msgLabel(m))
 	s.logf("deliver %s", msgLabel(m))
-	s.V.Deliver(m, "harness")
+	peer := s.Peer
+	if peer == "" {
+		peer = "harness"
+	}
+	s.V.Deliver(m, peer)
 	s.Net.observe(s.V)
 }
 
